@@ -5,7 +5,7 @@ From Coq Require Import ZArith NArith List Bool.
 From NV Require Import Lang.Ast Lang.Ref Back.VmCompile Back.VmExec Back.NatSem Back.OpTable Back.Agree Back.NatOrder Back.NatOrderProofs.
 Import ListNotations.
 
-(* value printing: the VM's val_print model and the reference/native printing agree on every scalar and string *)
+(* value printing: the VM's val_print model and the reference/native printing agree on every scalar, string and array of ints *)
 Theorem C01_print_alike : forall v, mval_print 8 (mval_of v) = print_value v.
 Proof. exact print_alike. Qed.
 Print Assumptions C01_print_alike.
@@ -137,6 +137,39 @@ Example C01_backends_agree_on_failed_assert_typed_satisfiable : exists M,
   run_ref 20 ex_loud_assert = Faulted FAssert [52; 10]%N /\
   run_vm 500 M = VError EAssert [52; 10]%N /\ run_nat RtoL 20 ex_loud_assert = NFaulted NFAssert [52; 10]%N.
 Proof. exact backends_agree_assert_typed_satisfiable. Qed.
+
+(* ---- arrays: an index out of range stops both engines at the access, with the same output ---- *)
+Theorem C01_backends_agree_on_out_of_range : forall pr M fuel out,
+  compile_program pr = Some M -> small_program pr -> fuel_small fuel -> depth_ok M ->
+  se_program pr = true -> cc_refuses pr = false -> (forall fuel', run_nat RtoL fuel' pr <> NStuckO) ->
+  run_ref fuel pr = Faulted FOob out ->
+  (exists fv, run_vm fv M = VError EOob out) /\ (exists fn, run_nat RtoL fn pr = NFaulted NFOob out).
+Proof. exact backends_agree_oob. Qed.
+Print Assumptions C01_backends_agree_on_out_of_range.
+
+Theorem C01_backends_agree_on_out_of_range_typed : forall pr M fuel out,
+  wt pr = true -> compile_program pr = Some M -> small_program pr -> fuel_small fuel -> depth_ok M ->
+  se_program pr = true -> cc_refuses pr = false ->
+  run_ref fuel pr = Faulted FOob out ->
+  (exists fv, run_vm fv M = VError EOob out) /\ (exists fn, run_nat RtoL fn pr = NFaulted NFOob out).
+Proof. exact backends_agree_oob_typed. Qed.
+Print Assumptions C01_backends_agree_on_out_of_range_typed.
+
+(* satisfiable on array programs: global array, array parameter and result, at / array_length / printing an array ... *)
+Example C01_backends_agree_typed_arrays : exists M,
+  wt ex_arr = true /\ compile_program ex_arr = Some M /\ small_program ex_arr /\ fuel_small 200 /\ depth_ok M /\
+  se_program ex_arr = true /\ cc_refuses ex_arr = false /\
+  run_ref 200 ex_arr = Done [50; 10; 91; 53; 44; 32; 54; 44; 32; 55; 93; 10; 53; 10; 54; 10; 55; 10]%N 11 /\
+  run_vm 5000 M = VDone [50; 10; 91; 53; 44; 32; 54; 44; 32; 55; 93; 10; 53; 10; 54; 10; 55; 10]%N 11 /\
+  run_nat RtoL 200 ex_arr = NDone [50; 10; 91; 53; 44; 32; 54; 44; 32; 55; 93; 10; 53; 10; 54; 10; 55; 10]%N 11.
+Proof. exact backends_agree_typed_arrays. Qed.
+(* ... and an out-of-range access after "1" was printed *)
+Example C01_backends_agree_on_out_of_range_satisfiable : exists M,
+  wt ex_oob = true /\ compile_program ex_oob = Some M /\ small_program ex_oob /\ fuel_small 100 /\
+  depth_ok M /\ se_program ex_oob = true /\ cc_refuses ex_oob = false /\
+  run_ref 100 ex_oob = Faulted FOob [49; 10]%N /\
+  run_vm 500 M = VError EOob [49; 10]%N /\ run_nat RtoL 100 ex_oob = NFaulted NFOob [49; 10]%N.
+Proof. exact backends_agree_oob_typed_satisfiable. Qed.
 
 (* ---- integer -> text (int_to_string, to_string, cast_string, string interpolation of ints) ----
    Both backends format through snprintf into a fixed buffer whose size is read from the current source
